@@ -128,7 +128,7 @@ struct Run {
   std::vector<unsigned> counts;    // optimiser's own counter after every step
   Snap prev, last; int steps = 0; bool trace = false; std::vector<Snap> hist;
   // final private state used by the oracle
-  double fp = NaN, fret = NaN, yhi = NaN, ylo = NaN, gw = NaN;
+  double fp = NaN, fret = NaN, yhi = NaN, ylo = NaN, ymax = NaN, ymin = NaN, gw = NaN;
   double slope = NaN, test = NaN;  // backtracking
 };
 
@@ -226,7 +226,7 @@ static void doRun(const Cfg& cf, Run& r, vf::Case& c) {
     for (size_t i = 0; i < fin.size(); ++i) r.xrep.push_back(fin[i].getValue());
     r.fval = o.getFunctionValue(); r.tolReached = o.isToleranceReached(); r.nbEval = o.getNumberOfEvaluations();
     if (cf.opt == POWELL) { auto* p = dynamic_cast<PowellMultiDimensions*>(&o); r.fp = p->fp_; r.fret = p->fret_; }
-    if (cf.opt == DSM) { auto* p = dynamic_cast<DownhillSimplexMethod*>(&o); if (p->y_.size() > std::max(p->iHighest_, p->iLowest_)) { r.yhi = p->y_[p->iHighest_]; r.ylo = p->y_[p->iLowest_]; } }
+    if (cf.opt == DSM) { auto* p = dynamic_cast<DownhillSimplexMethod*>(&o); if (p->y_.size() > std::max(p->iHighest_, p->iLowest_)) { r.yhi = p->y_[p->iHighest_]; r.ylo = p->y_[p->iLowest_]; r.ymax = r.ymin = p->y_[0]; for (double y : p->y_) { r.ymax = std::max(r.ymax, y); r.ymin = std::min(r.ymin, y); } } }
     if (cf.opt == GOLDEN) { auto* p = dynamic_cast<GoldenSectionSearch*>(&o); r.gw = std::fabs(p->x3 - p->x0); }
   }
 }
@@ -421,12 +421,16 @@ static void judge(const Cfg& cf, vf::Case& c, bool sampleIt, bool twice) {
     double d = dist(xr, s.m), d0 = dist(cf.start, s.m);
     if (touched) {
       c.tag("conv:not-judged(bound-touched)");
-      if (cv.judged && d > cv.bound && cv.bound < d0) c.tag("diag:bound-touched-and-stopped-far:" + on + "-" + POL[cf.pol]);
+      if (cv.judged && d > cv.bound && cv.bound < d0) { c.tag("diag:bound-touched-and-stopped-far:" + on + "-" + POL[cf.pol]); if (d > 1) c.sample("[not judged: a bound was touched] " + in + " stopped |x-m|=" + num(d) + " from the interior minimiser at " + vf::vstr(xr)); }
     } else if (!cv.judged) c.tag("conv:not-judged(" + cv.why + ")");
     else if (!(cv.bound < d0)) c.tag("conv:bound-vacuous:" + on);
     else {
       c.tag("conv:judged"); c.tag("conv:judged:" + on);
-      if (!(d <= cv.bound))
+      // cause of a simplex stop, read from its state: the documented rule (relative spread between the highest and the lowest vertex value
+      // below the tolerance) does not hold for the simplex as it is when the run stops -> the test used stale vertex indices (a different defect)
+      if (!(d <= cv.bound) && cf.opt == DSM && !(2 * std::fabs(r.ymax - r.ymin) / (std::fabs(r.ymax) + std::fabs(r.ymin)) < cf.tol))
+        c.fail("conv|stop-rule-not-satisfied-by-final-simplex|" + cls, in + ": |x-m|=" + num(d) + " > bound " + num(cv.bound) + "; vertex values range [" + num(r.ymin) + "," + num(r.ymax) + "] but the test compared " + num(r.ylo) + " with " + num(r.yhi) + "; reported " + vf::vstr(xr) + " minimiser " + vf::vstr(s.m) + " steps=" + str(r.steps));
+      else if (!(d <= cv.bound))
         c.fail("conv|stopped-far-from-minimiser|" + cls, in + ": |x-m|=" + num(d) + " > bound " + num(cv.bound) + " [" + cv.why + "]; reported " + vf::vstr(xr) + " minimiser " + vf::vstr(s.m) + " kappa=" + num(s.lmax / s.lmin) + " steps=" + str(r.steps) + " evaluations=" + str(r.obj->nEval));
     }
   }
